@@ -404,6 +404,211 @@ def is_buffer(x):
 
 
 # ------------------------------------------------------------------------------------------------
+# entry points found by INTROSPECTION (round 4): every class of the etsi layer2 / layer3 element packages and every Enum of
+# the codec packages (enum members are process-wide singletons: whatever a member keeps is shared by all later calls), plus
+# every other class with as_bits / from_bits / as_bytes / from_bytes that the hand-written catalogue below does not name.
+#   auto.<module>.<Class>.<method>       member method / property without required arguments, argument = member index
+#   auto.<module>.<Class>.<method>       static / class method with ONE required argument (a bit / octet buffer or an int):
+#                                        [result] + what the result's own as_* / to_* / get_* / is_* methods and repr return
+AUTO_PKGS = ("etsi", "hytera", "motorola", "utils")
+ELEMENT_PKGS = ("okdmr.dmrlib.etsi.layer2.elements.", "okdmr.dmrlib.etsi.layer3.elements.")
+CODEC_METHODS = ("as_bits", "from_bits", "as_bytes", "from_bytes")
+# classes the hand-written catalogue covers (their from_* / as_* entry points with captured packets)
+HAND_CATALOGUED = {
+    "Burst", "CSBK", "DataHeader", "EmbeddedSignalling", "FullLinkControl", "PIHeader", "Rate12Data", "Rate1Data", "Rate34Data",
+    "ShortLinkControl", "SlotType", "UDPIPv4CompressedHeader", "HDAP", "HRNP", "HSTRP", "HSTRPPacketType", "HSTRPOptions", "GPSData",
+    "LocationProtocol", "RadioControlProtocol", "RadioIP", "RadioRegistrationService", "TextMessageProtocol",
+    "AutomaticRegistrationService", "MBXML", "TextMessagingService", "BitsInterface", "BytesInterface",
+}
+_AUTO = None
+
+
+def _arg_kind(p):
+    """(what a one-argument static method wants: 'bits' | 'bytes' | 'int', does its annotation say so)"""
+    ann = p.annotation
+    ann = ann if isinstance(ann, str) else getattr(ann, "__name__", str(ann))
+    low = (ann or "").lower()
+    if "bitarray" in low:
+        return "bits", True
+    if "bytes" in low or "bytearray" in low:
+        return "bytes", True
+    if low in ("int", "optional[int]"):
+        return "int", True
+    n = p.name.lower()
+    if "bit" in n:
+        return "bits", False
+    if n in ("data", "value", "payload", "raw", "buffer", "buf") or "byte" in n:
+        return "bytes", False
+    return "bits", False
+
+
+def _observe(o):
+    """a parsed object, and everything its own serialisers hand out (each a fresh call)"""
+    import enum
+
+    r = [o]
+    if o is None or isinstance(o, (bool, int, float, str, bytes)):
+        return r
+    names = sorted({n for k in type(o).__mro__ if (k.__module__ or "").startswith("okdmr.") for n in vars(k)
+                    if n.startswith(("as_", "to_", "get_", "is_")) and not n.startswith("_")})
+    import inspect
+
+    for n in names:
+        f = getattr(o, n, None)
+        if not callable(f):
+            continue
+        try:
+            ps = [p for p in inspect.signature(f).parameters.values() if p.default is p.empty and p.kind in (p.POSITIONAL_ONLY, p.POSITIONAL_OR_KEYWORD)]
+        except (TypeError, ValueError):
+            continue
+        if ps:
+            continue
+        try:
+            r.append(f())
+        except NotImplementedError:
+            pass
+        except Exception as e:  # noqa
+            r.append("ERR " + type(e).__name__)
+    if not isinstance(o, enum.Enum):
+        r.append(repr(o) if type(o).__repr__ is not object.__repr__ else None)
+    return r
+
+
+def auto_entries():
+    """{name: (callable, meta)} in a deterministic order; introspection only, no library call is made here"""
+    global _AUTO
+    if _AUTO is not None:
+        return _AUTO
+    import enum
+    import importlib
+    import inspect
+    import pkgutil
+
+    import okdmr.dmrlib as root
+
+    out = {}
+    skipped = []
+    for mi in sorted(pkgutil.walk_packages(root.__path__, "okdmr.dmrlib."), key=lambda m: m.name):
+        parts = mi.name.split(".")
+        if len(parts) < 3 or parts[2] not in AUTO_PKGS or "tests" in parts:
+            continue
+        try:
+            mod = importlib.import_module(mi.name)
+        except BaseException as e:  # noqa
+            if isinstance(e, (KeyboardInterrupt, SystemExit)):
+                raise
+            skipped.append(mi.name)
+            continue
+        in_elements = (mi.name + ".").startswith(ELEMENT_PKGS)
+        for cname, cls in sorted(vars(mod).items()):
+            if not (isinstance(cls, type) and cls.__module__ == mod.__name__):
+                continue
+            is_enum = issubclass(cls, enum.Enum)
+            has_codec = any(callable(getattr(cls, m, None)) for m in CODEC_METHODS)
+            if cname in ("BitsInterface", "BytesInterface") or not (is_enum or in_elements or (has_codec and cname not in HAND_CATALOGUED)):
+                continue
+            base = f"auto.{parts[-1]}.{cname}"
+            members = list(cls) if is_enum else []
+            names = sorted({n for k in cls.__mro__ if (k.__module__ or "").startswith("okdmr.") for n in vars(k) if not n.startswith("_")})
+            for n in names:
+                raw = inspect.getattr_static(cls, n, None)
+                if isinstance(raw, property):
+                    if members:
+                        out[f"{base}.{n}"] = ((lambda ms, n: lambda i: getattr(ms[i % len(ms)], n))(members, n),
+                                              {"kind": "member", "n": len(members), "cls": cname, "enum": True, "elements": in_elements, "method": n})
+                    continue
+                fn = getattr(cls, n, None)
+                if fn is None or isinstance(fn, (type, enum.Enum)) or not callable(fn) or n.startswith("set_"):
+                    continue
+                static = isinstance(raw, (staticmethod, classmethod))
+                try:
+                    params = list(inspect.signature(fn).parameters.values())
+                except (TypeError, ValueError):
+                    continue
+                if not static:
+                    params = params[1:]
+                req = [p for p in params if p.default is p.empty and p.kind in (p.POSITIONAL_ONLY, p.POSITIONAL_OR_KEYWORD)]
+                if static and len(req) == 1:
+                    out[f"{base}.{n}"] = ((lambda cls, n: lambda x: _observe(getattr(cls, n)(x)))(cls, n),
+                                          {"kind": "static", "n": len(members), "cls": cname, "enum": is_enum, "elements": in_elements, "method": n, "arg": _arg_kind(req[0])[0], "arg_explicit": _arg_kind(req[0])[1]})
+                elif not static and not req and members:
+                    out[f"{base}.{n}"] = ((lambda ms, n: lambda i: getattr(ms[i % len(ms)], n)())(members, n),
+                                          {"kind": "member", "n": len(members), "cls": cname, "enum": True, "elements": in_elements, "method": n})
+    _AUTO = out
+    _AUTO_SKIPPED[:] = skipped
+    return out
+
+
+_AUTO_SKIPPED = []
+_AUTO_ERROR = []
+
+
+def auto_inventory():
+    """what the main process needs to generate arguments (run in a forked child: it calls the member serialisers to learn the
+    widths the parsers expect, and tries every one-argument static method on a few buffers to see what it takes)"""
+    import inspect
+
+    from bitarray import bitarray
+
+    inv = []
+    impl()
+    if _AUTO_ERROR:
+        return {"entries": [], "skipped_modules": list(_AUTO_SKIPPED), "error": _AUTO_ERROR[0]}
+    ents = auto_entries()
+    widths, ser = {}, {}
+    for name, (fn, meta) in ents.items():
+        if meta["kind"] == "member" and meta["method"] in ("as_bits", "as_bytes"):
+            kind = "bits" if meta["method"] == "as_bits" else "bytes"
+            vals = []
+            for i in range(meta["n"]):
+                try:
+                    v = fn(i)
+                    len(v)
+                    vals.append(v)
+                except BaseException:  # noqa
+                    pass
+            widths[(meta["cls"], kind)] = sorted({len(v) for v in vals})
+            ser[(meta["cls"], kind)] = vals
+
+    def samples(cls, kind):
+        out = list(ser.get((cls, kind), []))[:40]
+        if kind == "bits":
+            for w in widths.get((cls, kind), []) + [8, 48, 16, 1, 4, 96, 264]:
+                out += [bitarray("0" * w), bitarray("1" * w), bitarray(("10" * w)[:w]), bitarray(("01" * w)[:w])]
+        elif kind == "bytes":
+            for w in widths.get((cls, kind), []) + [1, 6, 2, 4, 12, 38, 72]:
+                out += [bytes(w), bytes(range(1, w + 1)), b"\xff" * w, b"\x80" * w, b"\x10" * w]
+        else:
+            out += [0, 1, 2, 255]
+        return out
+
+    for name, (fn, meta) in ents.items():
+        m = dict(meta, ep=name)
+        if meta["kind"] == "static":
+            # smoke test: does the method take a buffer (of which kind, which width) or an int at all?  One that raises on every
+            # sample wants something else (an enum member, a parsed packet): no codec entry point for a buffer
+            explicit = meta.get("arg_explicit", False)
+            kinds = [meta["arg"]] + ([] if explicit else [k for k in ("bits", "bytes", "int") if k != meta["arg"]])
+            ok = None
+            for kind in kinds:
+                for v in samples(meta["cls"], kind):
+                    try:
+                        fn(v)
+                        ok = (kind, len(v) if kind != "int" else 0)
+                        break
+                    except BaseException:  # noqa
+                        continue
+                if ok:
+                    break
+            m["callable"] = ok is not None
+            if ok:
+                m["arg"] = ok[0]
+                m["widths"] = widths.get((meta["cls"], ok[0]), []) or ([ok[1]] if ok[0] != "int" else [])
+        inv.append(m)
+    return {"entries": inv, "skipped_modules": list(_AUTO_SKIPPED)}
+
+
+# ------------------------------------------------------------------------------------------------
 # the entry points (name -> callable); built lazily, after a possible ambient patch
 _IMPL = None
 _PERSIST = {}
@@ -778,6 +983,28 @@ def impl():
         return "none" if d is None else f"n:{d.year:04d}{d.month:02d}{d.day:02d}"
 
     E["m.gpsdate"] = lambda ddmmyy: guarded(lambda: m_gpsdate(ddmmyy), None)
+    # ---------------- every element class / enum / remaining codec class, found by introspection
+    elem = {}
+    try:
+        found = auto_entries()
+    except BaseException as e:  # noqa  (a tree the introspection cannot walk: the hand-written catalogue still runs; reported by auto_inventory)
+        if isinstance(e, (KeyboardInterrupt, SystemExit)):
+            raise
+        _AUTO_ERROR.append(type(e).__name__ + ": " + str(e)[:200])
+        found = {}
+    for name, (fn, meta) in found.items():
+        E[name] = fn
+        if meta["kind"] == "member" and meta.get("elements") and meta["method"] == "as_bits":
+            elem[name[len("auto."):-len(".as_bits")]] = (fn, meta["n"])
+
+    def m_element(key, i):
+        fn, n = elem[key]
+        if not 0 <= i < n:
+            raise IndexError("no-such-member")
+        return "b:" + fb(fn(i))
+
+    # the same members as an entry point of the Lean model (Call.elementBits): `<module>.<Class>`, member index
+    E["m.element"] = lambda key, i: guarded(lambda: m_element(key, i), None)
     _IMPL = E
     return E
 
@@ -1102,6 +1329,8 @@ def serve():
             resp = child(run_seq, 600)
         elif op == "probe":
             resp = child(lambda: {"probe": probe()}, 120)
+        elif op == "auto":
+            resp = child(auto_inventory, 120)
         else:
             resp = {"child_error": "bad op"}
         proto_out.write(json.dumps(resp) + "\n")
